@@ -239,7 +239,17 @@ func (sc *srvScen) tableHistory(n int) {
 		addr := sc.freshSrc([]int{0, 0, 1, 2}[r.Intn(4)])
 		if len(pool) > 0 && r.Intn(4) == 0 {
 			k := pool[r.Intn(len(pool))]
-			switch r.Intn(3) {
+			switch r.Intn(4) {
+			case 3:
+				// same contact, other representation of its IPv4 address (4-byte vs 16-byte mapped)
+				id, addr = k.id, k.addr
+				if v4 := k.addr.IP.To4(); v4 != nil {
+					if len(k.addr.IP) == 4 {
+						addr = udp(v4.To16(), k.addr.Port)
+					} else {
+						addr = udp(v4, k.addr.Port)
+					}
+				}
 			case 0:
 				id, addr = k.id, k.addr // same contact again
 			case 1:
@@ -262,8 +272,13 @@ func (sc *srvScen) tableHistory(n int) {
 			sc.send(addr, q)
 			sc.r.hist("table-event/unsolicited-response")
 		case k < 17:
-			sc.addNode(addr, id)
-			sc.r.hist("table-event/AddNode")
+			if r.Intn(6) == 0 && id != sc.root && id != ([20]byte{}) {
+				sc.blockedMidQuery(addr, id)
+				sc.r.hist("table-event/blocked-mid-query")
+			} else {
+				sc.addNode(addr, id)
+				sc.r.hist("table-event/AddNode")
+			}
 		case k < 18:
 			if len(pool) > 0 {
 				kk := pool[r.Intn(len(pool))]
